@@ -28,6 +28,7 @@ CONSTANTS
   BugPubrelDemote,  \* F2: a failed PUBREL write retries from PUBLISH
   BugRetryNoTimeout,\* F6: retransmissions wait without ResponseTimeout
   BugSubDup,        \* F10: subscriptions.applyTo appends duplicates
+  BugRetryGoesOn,   \* F19: the Retry pass went on after a deferred request had failed and queued its own retry
   Handlers,         \* C17: handler identities the application registers in turn (sequence; << >> = none)
   MaxInbound,       \* C17: number of inbound messages the broker sends
   BugHandleAfterConnect,  \* C17 non-vacuity: the handler is attached only after Connect returned
@@ -387,7 +388,14 @@ Finish(result, stage) ==
                  /\ retryQ' = retryQ \o <<cont>> \o (IF BugRequeueAll THEN tg.all ELSE tg.rest)
                  /\ tg' = [tg EXCEPT !.pc = "after", !.st = "none"]
                  /\ nrbe' = IF BugRetryNoTimeout THEN nrbe ELSE TRUE
-            ELSE \* the request closure handles it itself: append + newRetryByError; the loop goes on
+            ELSE IF tg.task.t = "retry" /\ ~BugRetryGoesOn
+            THEN \* a deferred request of the Retry pass failed and queued its own retry: the following requests stay
+                 \* behind it, break (fix F19).  With BugRetryGoesOn the loop went on (the code before the fix): with a
+                 \* response timeout the later requests overtook the failed one on the still open connection.
+                 /\ retryQ' = retryQ \o <<cont>> \o tg.rest
+                 /\ nrbe' = TRUE
+                 /\ tg' = [tg EXCEPT !.pc = "after", !.st = "none"]
+            ELSE \* the request closure handles it itself: append + newRetryByError
                  /\ retryQ' = Append(retryQ, cont)
                  /\ nrbe' = TRUE
                  /\ tg' = contTg
